@@ -705,7 +705,9 @@ def _get_samples_from_slice_sampler_(gp: gpr.GP, hyp_gp, optim_state, options):
             new_hyp = hyp_sampler.sample(1, burn=None)["samples"][0]
             sampler_failed = False
             break
-        except np.linalg.LinAlgError:
+        except (np.linalg.LinAlgError, ValueError):
+            # ValueError: the sampler found the GP objective not finite at
+            # the starting point (degenerate training data)
             logger.warning(
                 f"bads:gp priors sampling: The slice sampler failed, Cholesky decomposition."
             )
